@@ -519,6 +519,18 @@ func c10QueryKeys(w *World, r *Report) {
 				}
 			}
 		}
+		// or written straight into the label map (a map literal labels{"name": …})
+		for _, b := range fn.Blocks {
+			for _, in := range b.Instrs {
+				if mu, ok := in.(*ssa.MapUpdate); ok {
+					if n, isN := mu.Map.Type().(*types.Named); isN && refTypeName(n.Obj()) == "labels" {
+						if k, ok := constString(mu.Key); ok {
+							ks[k] = true
+						}
+					}
+				}
+			}
+		}
 		if len(ks) > 0 {
 			written[name] = ks
 		}
